@@ -307,6 +307,9 @@ def changed(ex, snap, upto):
                 or (isinstance(a, VRef) and isinstance(b, VRef) and a.addr == b.addr)
             if not same:
                 out.append((loc, "changed"))
+    for loc in snap:
+        if loc[0] < upto and loc not in now and loc[0] in ex.st.heap:
+            out.append((loc, "removed"))          # a field / dictionary entry that existed before is gone (del, pop, clear)
     return out
 
 
